@@ -38,11 +38,39 @@ CHECKS = {
         "text": "At the end of every history (as C01, one level shallower) a fresh KeyValueStore::range_scan is opened for each of the 25 combinations of unbounded/included/excluded bounds over {a,b} (including empty and inverted ranges) and every program of up to L calls over {next, prev, seek_to_first, seek_to_last, seek(5 targets)} is run on it; the observation after the last call must equal a vector cursor over the model restricted to the bounds.",
         "note": "Reference movement semantics are those of sst::reference::ReferenceCursor (positions -1..n, saturating). L = 3 for three representative bound pairs and 2 for the rest (quick); 4/3 (thorough).",
     },
+    "C02": {
+        "level": "fault_enumeration",
+        "technique": "exhaustive crash-point and single-fault enumeration: in-process syscall journal of the real store, every journal prefix (x loss variants of unsynced writes) rebuilt as a directory image and recovered by the real KeyValueStore::open",
+        "design_ref": "DESIGN.md 3.2, 4 (C02)",
+        "jobs": {
+            "quick": [{"ws": "harness", "bin": "crash_store", "args": ["--prop", "C02", "--depth", 3, "--cfgs", "A-min,B-l0"], "timeout": 3000}],
+            "thorough": [{"ws": "harness", "bin": "crash_store", "args": ["--prop", "C02", "--depth", 4, "--cfgs", "A-min,B-l0,C-default,H-mem64-mand1"], "timeout": 6000}],
+        },
+        "text": "For every history of <= d steps (quick 3, thorough 4) over a 10-symbol alphabet plus every prefix of 4 curated 10-12 step histories, the real store runs under an in-binary interposer that journals every mutating system call; for every crash point inside the last step (earlier steps are the shorter histories) the directory image is rebuilt from the journal prefix, in the persistence model where every completed call persists and in every variant that loses trailing unsynced writes of any subset of files, and recovered by the real open; reads must match the acknowledged writes (plus, optionally, the whole in-flight write), open must not fail or panic, and the store must accept a further write, flush and compaction. Every single EIO, ENOSPC and short write at every mutating call of the last step is injected too: no panic, and an operation that returns Ok counts as acknowledged.",
+        "note": "Crash granularity is the system call; directory operations persist on return (the property's model). The journal model is validated against the real directory after every history. Torn writes inside one call are C09/C12/C13's business. Double faults are not explored.",
+    },
+    "C17": {
+        "level": "model_checking",
+        "technique": "stateless model checking of the real skipfree/listfree code under loom (DPOR, iterative preemption bounding 1,2,3,unbounded) with a patched dependency tracker; plus bounded exhaustive operation sequences with an allocation registry for iterator validity",
+        "design_ref": "DESIGN.md 3.3, 4 (C17)",
+        "jobs": {
+            "quick": [{"ws": "loomh", "bin": "loom_skiplist", "args": [], "timeout": 900},
+                      {"ws": "harness", "bin": "seq_skiplist", "args": ["--depth", 6], "timeout": 900}],
+            "thorough": [{"ws": "loomh", "bin": "loom_skiplist", "args": [], "timeout": 7200},
+                         {"ws": "harness", "bin": "seq_skiplist", "args": ["--depth", 7], "timeout": 3000}],
+        },
+        "text": "46 configurations of 2-3 inserter threads on adjacent keys (same predecessor at every level, scripted heights 1..3, ascending/descending/empty) racing one reader (full iteration, reverse iteration, seek+prev, contains) on the real SkipList<u64,u64,2|3> and 2-3 prependers racing an iterating reader on listfree::List: loom explores every interleaving of the pointer loads/stores/CASes, completing preemption bounds 1, 2, 3 and then the unbounded search as far as each configuration's budget allows (the completed bound is in the evidence). Oracle: a reader that starts after an insert returned must see it; iteration strictly ordered, nothing invented; after join everything present exactly once. Iterator validity is decided sequentially: every operation sequence <= 6 over {insert, open iterator, movements, drop list} with released nodes quarantined and every dereference asserting liveness.",
+        "note": "loom models the C11 orderings of the AtomicPtr operations; node payloads are plain memory (not modelled); std Arc counts are not modelled. upstream loom 0.7.2 tracks only the last access per atomic, which loses load/RMW races between different threads; /verif/vendor/loom carries a small patch (marked VERIF PATCH) that tracks all loads since the last write.",
+    },
 }
 
-HOOK_COMMITS = ["78dca42"]
+HOOK_COMMITS = ["78dca42", "83c0526", "7e7e701", "cedc0ca"]
 
 ENGINES = [
+    {"name": "crashmc", "path": "harness/crashmc", "serves_properties": ["C02", "C04", "C08"],
+     "kind_free_text": "syscall journal by in-binary libc interposition, crash-image reconstruction, loss variants, single-fault injection"},
+    {"name": "loomh", "path": "loomh", "serves_properties": ["C17"],
+     "kind_free_text": "loom (vendored, patched DPOR dependency tracking) over the real concurrent code, one child process per configuration, iterative preemption bounding"},
     {"name": "seqmc", "path": "harness/seqmc", "serves_properties": ["C01", "C03", "C04", "C05", "C07", "C08", "C20"],
      "kind_free_text": "bounded exhaustive exploration of operation sequences on the real lsmtk store, single-stepped background loops"},
 ]
